@@ -78,7 +78,12 @@ def gen_tree(rng, prof):
                 ck = rng.choice(["mod", "mod", "seq"])
             else:
                 ck = rng.choice(["mod", "mod", "list", "seq"])
-            n["children"].append({"node": node(depth + 1, ck)})
+            ch = node(depth + 1, ck)
+            if ck == "mod" and prof.get("mod_name") in ("same", "differs") and rng.random() < 0.5:
+                # a child that already carries a name of its own when it is put into the container (explicit name=):
+                # inside a ModuleList / Sequential the index is the name, as in PyTorch
+                ch["name"] = uid("pre") + ("_x" if prof.get("mod_name") == "differs" else "")
+            n["children"].append({"node": ch})
         return n
 
     root_kind = prof.get("root", "mod")
